@@ -25,7 +25,7 @@ COMPONENTS = {'metamath/translate.py (exec_proof), converter, parser, ProofExp.s
               'Metamath verifier + term->pattern image': 'model R4', 'rust/src/lib.rs': 'real (harness)', 'documented machine': 'model R1'}
 ASSUMPTIONS = ['databases follow the label convention <var>-is-pattern that the converter hard-codes for floating hypotheses',
                'order of published axioms = declaration order of the exported axioms and rules']
-PROBES = ['rule_with_essentials_applied', 'mp_applied', 'z_reuse_of_proof_step', 'z_reuse_of_pattern_step', 'notation_used', 'target_mvars_ge2', 'real_main_run', 'ctor_arity_ge2', 'noncanonical_variable_roles']
+PROBES = ['rule_with_essentials_applied', 'mp_applied', 'z_reuse_of_proof_step', 'z_reuse_of_pattern_step', 'notation_used', 'target_mvars_ge2', 'real_main_run', 'ctor_arity_ge2', 'noncanonical_variable_roles', 'shipped_benchmark']
 
 
 def prepare():
@@ -34,7 +34,15 @@ def prepare():
     rust.gc_builds()
 
 
+SHIPPED = [('impreflex-compressed-goal.mm', 'goal'), ('impreflex-compressed.mm', 'imp-reflexivity'), ('impreflex.mm', 'imp-reflexivity')]
+SHIPPED_SLOW = [('transfer-simple-compressed-goal.mm', 'goal'), ('transfer-simple-goal.mm', 'goal')]
+
+
 def generate(rng, tier):
+    r = rng.random()
+    if r < 0.03 or (tier == 'thorough' and r < 0.031):
+        name, target = rng.choice(SHIPPED + (SHIPPED_SLOW if tier == 'thorough' and r > 0.03 else []))
+        return {'shipped_mm': name, 'target': target, 'hashseeds': sorted(rng.sample(range(16), 2))}
     return {'gen_seed': rng.getrandbits(40), 'hashseeds': sorted(rng.sample(range(16), 2)), 'real_main': rng.random() < 0.08}
 
 
@@ -111,7 +119,39 @@ def _z_after_syntax(db, target, layouts):
     return False
 
 
+def execute_shipped(sc, ctx):
+    """A shipped benchmark: translation must succeed, the checker and R1 must accept, and the files
+    must not depend on the hash seed (the structural image is not computed for these databases)."""
+    import os
+    from ..paths import REPO
+    out = Outcome()
+    out.nontrivial = True
+    out.probe('shipped_benchmark')
+    text = open(os.path.join(REPO, 'generation', 'mm-benchmarks', sc['shipped_mm'])).read()
+    seen = {}
+    for h in sc['hashseeds']:
+        out.fault('hashseed')
+        r = ctx.ask(h, {'op': 'serialise', 'target': {'kind': 'mm', 'text': text, 'target': sc['target']}, 'formats': ['binary'], 'optimize': True, 'history': [], 'timeout': 110})
+        out.ops += 1
+        if 'error' in r:
+            out.violate('a shipped benchmark translates', 'C16|shipped|translate-raises|' + r['error'], '%s hashseed=%d: %s' % (sc['shipped_mm'], h, r.get('trace', r.get('message', ''))[-600:]))
+            return out
+        triple = tuple(bytes.fromhex(r['files']['binary'][s]) for s in ('gamma', 'claim', 'proof'))
+        out.event(sc['shipped_mm'], h, [len(x) for x in triple])
+        seen[h] = triple
+        ok, m, msg, at = R.verify(*triple)
+        rw = ctx.harness.verify(*triple)
+        if not ok or not rw.accepted:
+            out.violate('the translation of a shipped benchmark is accepted by the checker', 'C16|shipped|rejected', '%s: rust=%s R1=%s %s' % (sc['shipped_mm'], rw.accepted, ok, msg))
+            return out
+    if len(set(seen.values())) > 1:
+        out.violate('the translation of a shipped benchmark does not depend on the hash seed', 'C16|shipped|hashseed-dependent', sc['shipped_mm'])
+    return out
+
+
 def execute(sc, ctx):
+    if 'shipped_mm' in sc:
+        return execute_shipped(sc, ctx)
     out = Outcome()
     if 'layouts' in sc:
         layouts, claim_img, gamma_img, info = sc['layouts'], T.tup(sc['claim_img']), [T.tup(a) for a in sc['gamma_img']], sc['info']
